@@ -1045,14 +1045,17 @@ def first_match_loops(ctx, quals: Iterable[str], why: str, suffixes: Tuple[str, 
     repo = ctx.repo
     n_loops = 0
 
-    def leaves(body):
-        if not body:
-            return False
-        last = body[-1]
-        if isinstance(last, (ast.Break, ast.Return, ast.Raise)):
-            return True
-        if isinstance(last, ast.If):
-            return bool(last.orelse) and leaves(last.body) and leaves(last.orelse)
+    def leaves(stmts):
+        """the statement sequence leaves the loop on every path (break / return / raise) before it could reach the next entry"""
+        for st in stmts:
+            if isinstance(st, (ast.Break, ast.Return, ast.Raise)):
+                return True
+            if isinstance(st, ast.Continue):
+                return False
+            if isinstance(st, ast.If) and st.orelse and leaves(st.body) and leaves(st.orelse):
+                return True
+            if isinstance(st, ast.Try) and leaves(st.body) and all(leaves(h.body) for h in st.handlers):
+                return True
         return False
 
     for q in quals:
@@ -1072,14 +1075,22 @@ def first_match_loops(ctx, quals: Iterable[str], why: str, suffixes: Tuple[str, 
             for st in n.body:
                 if isinstance(st, ast.Assign) and any(isinstance(x, ast.Name) and x.id in derived for x in ast.walk(st.value)):
                     derived |= {t.id for tt in st.targets for t in ast.walk(tt) if isinstance(t, ast.Name)}
-            arms = [st for st in n.body if isinstance(st, ast.If) and {x.id for x in ast.walk(st.test) if isinstance(x, ast.Name)} & derived]
+            arms = [(i, st) for i, st in enumerate(n.body) if isinstance(st, ast.If) and {x.id for x in ast.walk(st.test) if isinstance(x, ast.Name)} & derived]
             n_loops += 1
             construct = f"{f.short}/the first active entry of `{it}` ends the search"
+
+            def active_path_leaves(i, st):
+                rest = n.body[i + 1:]
+                t = st.test
+                if isinstance(t, ast.UnaryOp) and isinstance(t.op, ast.Not):
+                    # `if not <active>: continue` - the active entry is handled by what follows
+                    return leaves(list(st.orelse) + rest)
+                return leaves(list(st.body) + rest)
             if not arms:
                 ctx.bad(construct, f"the loop leaves without testing the entry's condition `{cond}`: {why}", f.loc(n))
-            elif not all(leaves(a.body) for a in arms):
-                a = [a for a in arms if not leaves(a.body)][0]
-                ctx.bad(construct, f"under `{ast.unparse(a.test)[:60]}` the loop goes on to the next entry on some path: {why}", f.loc(a))
+            elif not all(active_path_leaves(i, a) for i, a in arms):
+                a = [a for i, a in arms if not active_path_leaves(i, a)][0]
+                ctx.bad(construct, f"for an entry with `{ast.unparse(a.test)[:60]}` {'false' if isinstance(a.test, ast.UnaryOp) else 'true'} the loop goes on to the next entry on some path: {why}", f.loc(a))
             else:
                 ctx.ok(construct, f.loc(n))
     return n_loops
@@ -1206,7 +1217,7 @@ def definitely_assigned(ctx, modnames: Iterable[str], why: str, exempt: Dict[str
                 # same statement defines and reads (x = x + 1 without a prior definition is still an error) - fall through
                 if flg is None:
                     flg = Flow(fn, resolver=Resolver(fn)).run()
-                here = flg.guards_at(st) or set()
+                here = effective_guards(flg, flg.resolver, fn, st)
                 ok = False
                 for d in stores[n.id]:
                     ds = repo.enclosing_stmt(d)
